@@ -104,7 +104,7 @@ type Step struct {
 	Ms   int         `json:"ms,omitempty"`
 	On   bool        `json:"on,omitempty"`
 	Env  *EnvJ       `json:"env,omitempty"`
-	Nw   bool        `json:"nw,omitempty"` // do not wait for quiescence after this step
+	Nw   bool        `json:"nw,omitempty"`  // do not wait for quiescence after this step
 	Cow  bool        `json:"cow,omitempty"` // sopen: cancel the caller's context inside the transport write of the opening envelope
 }
 
@@ -130,11 +130,11 @@ type Scenario struct {
 	Srv    string `json:"srv"`    // server name (default "srv")
 	Dst    string `json:"dst"`    // client's destination (default = Srv)
 	CStats int    `json:"cstats"`
-	SIcpt  int    `json:"sicpt"`  // server built with that many pass-through unary and stream interceptors (1: single, >1: chained)
-	CIcpt  int    `json:"cicpt"`  // the same for the client connection
+	SIcpt  int    `json:"sicpt"` // server built with that many pass-through unary and stream interceptors (1: single, >1: chained)
+	CIcpt  int    `json:"cicpt"` // the same for the client connection
 	SStats int    `json:"sstats"`
 	NoTok  bool   `json:"notoken"` // calls carry no call token (strictly sequential scenarios only): see anonTab
-	Anon   bool   `json:"anon"` // README: "If names are not desirable ... an empty string for the destination and server names"
+	Anon   bool   `json:"anon"`    // README: "If names are not desirable ... an empty string for the destination and server names"
 	Steps  []Step `json:"steps"`
 }
 
@@ -259,10 +259,10 @@ type runtimeS struct {
 	calls  map[int]*call
 	objMu  sync.Mutex
 	objs   map[any]int
-	curObj int // connection index to bind the next unknown hook object to
+	curObj int                // connection index to bind the next unknown hook object to
 	tapByG map[int64]*lazyTap // goroutine that serves a logical connection of the demultiplexer -> its tap
 	objTap map[any]*lazyTap   // hook object -> tap of its connection (the index is learnt from the first envelope)
-	base   int // goroutine baseline
+	base   int                // goroutine baseline
 	extra  []func()
 }
 
